@@ -52,7 +52,10 @@ def run_density(setup, nprocs, G, perturbed, cplx, policy_seed, warm=None):
         L = g.getLayout('v_parallel')
         blk = np.transpose(G, (0, 2, 1, 3))[L.starts[0]:L.ends[0], L.starts[1]:L.ends[1]]
         g._f[:] = blk
-        rho._f[:] = (7.5 - 3.25j) if cplx else 7.5  # stale content (as left by the in-place FFT of the previous step: non-real) must be overwritten
+        # stale content must be overwritten whatever it is: what the in-place FFT of the previous step left (non-real), or what np.empty
+        # memory / a diverged earlier step may hold (nan, inf)
+        stale = [7.5, np.nan, np.inf, -np.inf][policy_seed % 4]
+        rho._f[:] = complex(stale, -3.25 if policy_seed % 8 < 4 else np.nan) if cplx else stale
         import copy
         consts = copy.copy(setup['constants'])           # this rank's own Constants object (ranks are threads here)
         df = DensityFinder(setup['quad_degree'], bs[3], eta, consts)
@@ -223,7 +226,7 @@ def one_setup(chk, drv, it, stats):
                         m, s = Fr(mo['rho'][i][j][k]), Fr(mo['scale'][i][j][k])
                         if not common.close(impl[i, j, k].real, m, s, C_MODEL) and bad is None:
                             bad = (i, j, k, str(m), float(impl[i, j, k].real))
-                        if s:
+                        if s and np.isfinite(impl[i, j, k].real):
                             stats['model'] = max(stats['model'], float(abs(Fr(float(impl[i, j, k].real)) - m) / (EPS * s)))
             if bad is not None:
                 chk.diff('rho value', dict(rc, local_index=bad[:3]), bad[3], bad[4])
@@ -242,7 +245,7 @@ def one_setup(chk, drv, it, stats):
                 for T in range(nth):
                     val = glob[R, Z, T].real
                     e, s = exact[R, Z, T], escale[R, Z, T]
-                    if s:
+                    if s and np.isfinite(val):
                         stats['integral'] = max(stats['integral'], float(abs(Fr(float(val)) - e) / (EPS * s)))
                     if not common.close(val, e, s, C_INTEGRAL) and worst is None:
                         worst = {'global_index': [R, T, Z], 'expected': float(e), 'actual': float(val)}
